@@ -30,6 +30,7 @@ from pvc.core import Sym
 
 MODULES = common.RR_MODULES + common.UR_MODULES + ['dassh.core', 'dassh.reactor', 'dassh.mesh_functions', 'dassh.assembly']
 PROPERTY = 'C02'
+LEAN_LEMMAS = ['sweep_balance', 'core_balance', 'exchange']        # /verif/lean/Ghost.lean, checked in the thorough tier
 FUNCTIONS = ['dassh.region_rodded:RoddedRegion.calculate', 'dassh.region_unrodded:SingleNodeHomogeneous.calculate',
              'dassh.region_unrodded:MultiNodeHomogeneous.calculate', 'dassh.reactor:Reactor._calculate_asm_temperatures',
              'dassh.reactor:Reactor.axial_step', 'dassh.assembly:Assembly.update_region / check_region_update',
